@@ -172,10 +172,13 @@ def prove_assign_types(S):
     for fn, kind, n in (('assign_bond_types', 'bond', 2), ('assign_angle_types', 'angle', 3)):
         S.function(RU, fn)
         S.guarded(fn, lambda fn=fn, kind=kind, n=n: _assign(S, RU, fn, kind, n))
+        S.guarded(fn + ' with exclusion set', lambda fn=fn, kind=kind, n=n: _assign(S, RU, fn, kind, n, with_exclude=True))
 
 
-def _assign(S, RU, fn, kind, n):
+def _assign(S, RU, fn, kind, n, with_exclude=False):
     I = S.interp()
+    st_x = {}
+    ARITY_ = n
     I.allow_merge = False
     models_py.install(I)
     models_np.install(I)
@@ -226,6 +229,32 @@ def _assign(S, RU, fn, kind, n):
         I.models['%s:angle_params' % RU] = m_params
         I.models['tuple.opaque-star'] = m_star
         I.models['%s:angle2lammpsdat' % RU] = m_a2l
+    prev_len = I.models.get('len.fallback')
+
+    def m_len(ctx, v):
+        if isinstance(v, SymSet) and getattr(v, 'size', None) is not None:
+            return Sym(v.size)
+        if prev_len:
+            return prev_len(ctx, v)
+        raise OutOfSubset("len of %r" % (v,))
+    I.models['len.fallback'] = m_len
+
+    def m_exclude(ctx, args, kwargs):
+        # contract of delete_if_all_in_set (proved above): the rows not wholly inside the set, in order
+        arr, sset = args
+        I.reg.assumptions_used.add("contract of rough_uff.delete_if_all_in_set (proved above): removes exactly the rows wholly inside the set, keeps the order of the others")
+        m = z3.Int(I.reg.fresh('n_kept'))
+        I.assume(z3.And(m >= 0, m <= arr.length))
+        cols = [z3.Array(I.reg.fresh('kept_c%d' % c), INT, INT) for c in range(len(arr.cols))]
+        src = z3.Function(I.reg.fresh('kept_src'), INT, INT)
+        q = z3.Int(I.reg.fresh('q'))
+        inside = lambda r_: z3.And(*[sset.pred(z3.Select(c, r_)) for c in arr.cols])
+        I.assume(z3.ForAll([q], z3.Implies(z3.And(q >= 0, q < m), z3.And(src(q) >= 0, src(q) < arr.length, z3.Not(inside(src(q))),
+                                                                        *[z3.Select(cn, q) == z3.Select(co, src(q)) for cn, co in zip(cols, arr.cols)])), patterns=[z3.Select(cols[0], q)]))
+        out = SymSeq(m, cols, arr.width, arr.kind, 'kept_' + (arr.name or 'terms'))
+        st_x['filtered'] = (out, arr, src)
+        return out
+    I.models[RU + ':delete_if_all_in_set'] = m_exclude
     clo = I.closure_for(RU, fn)
     st = {}
 
@@ -239,24 +268,42 @@ def _assign(S, RU, fn, kind, n):
         I.assume(z3.ForAll([r], z3.Implies(z3.And(r >= 0, r < NT), z3.And(*[z3.And(z3.Select(c, r) >= 0, z3.Select(c, r) < NA) for c in terms.cols])),
                            patterns=[z3.Select(terms.cols[0], r)]))          # requires: terms refer to existing atoms
         atoms = I.state.alloc('Atoms', {'__class__': 'Atoms', kind + 's': terms, kind + '_types': None, kind + '_type_coeffs': None})
-        I.call_closure(clo, [atoms, uff], {'bond_order_rules': rules})
-        return atoms, uff, terms
+        st_x.clear()
+        if with_exclude:
+            inset = z3.Function('in_exclusion_set', INT, z3.BoolSort())
+            excl = SymSet(lambda x: inset(x), INT, 'exclude')
+            excl.size = z3.Int('exclusion_set_size')
+            I.assume(excl.size >= 0)
+            I.call_closure(clo, [atoms, uff], {'bond_order_rules': rules, 'exclude': excl})
+        else:
+            I.call_closure(clo, [atoms, uff], {'bond_order_rules': rules})
+        return atoms, uff, terms, dict(st_x)
 
     paths = I.explore(thunk)
-    tag = fn
     for pi, p in enumerate(paths):
         if p.outcome != 'return':
             raise OutOfSubset("%s raises" % fn)
-        atoms, uff, terms = p.value
+        atoms, uff, terms0, stx = p.value
         heap = p.state.heap[atoms.oid]
         T, C = heap[kind + '_types'], heap[kind + '_type_coeffs']
+        terms = heap[kind + 's']
+        tag = fn + ('[exclusion set]' if with_exclude else '')
+        if with_exclude:
+            filt = stx.get('filtered')
+            size = z3.Int('exclusion_set_size')
+            if filt is not None:
+                S.add(I, tag + "/post/exclusion-applied-only-when-the-set-can-hold-a-term#" + str(pi), p.pc, z3.And(size >= ARITY_, z3.BoolVal(terms is filt[0] and filt[1] is terms0)),
+                      clause='honours the exclusion set')
+            else:
+                S.add(I, tag + "/post/no-exclusion-for-a-set-smaller-than-a-term#" + str(pi), p.pc, z3.And(size < ARITY_, z3.BoolVal(terms is terms0)), clause='honours the exclusion set')
         if not (isinstance(T, SymSeq) and isinstance(C, SymSeq)):
             raise OutOfSubset("%s does not assign symbolic type / coefficient lists" % fn)
         i, j, u = z3.Int('pi'), z3.Int('pj'), z3.Int('pu')
         seq = lambda r: [z3.Select(uff.cols[0], z3.Select(c, r)) for c in terms.cols]
         upto = lambda x, y: z3.Or(eq(x, y), eq(x, list(reversed(y))))
         Ti, Tj = z3.Select(T.cols[0], i), z3.Select(T.cols[0], j)
-        S.add(I, "%s/frame/term-list-unchanged-without-exclusion#%d" % (tag, pi), p.pc, z3.BoolVal(heap[kind + 's'] is terms), kind='frame')
+        if not with_exclude:
+            S.add(I, "%s/frame/term-list-unchanged-without-exclusion#%d" % (tag, pi), p.pc, z3.BoolVal(heap[kind + 's'] is terms0), kind='frame')
         S.add(I, "%s/post/one-type-per-term#%d" % (tag, pi), p.pc, T.length == terms.length, clause='every term gets a type')
         S.add(I, "%s/post/same-type-iff-uff-sequences-agree-up-to-reversal#%d" % (tag, pi), p.pc,
               z3.ForAll([i, j], z3.Implies(z3.And(i >= 0, i < terms.length, j >= 0, j < terms.length), (Ti == Tj) == upto(seq(i), seq(j)))),
